@@ -1157,3 +1157,111 @@ def edge_multiplicity(ctx: Ctx) -> list[Ob]:
                 out.append(unres("R14s", f.qualname, inst, "the successor function is neither a mapping lookup nor a membership filter: no verdict", loc))
     out.append(ok("R14s", "cirkit", "explicit-outcomings", f"{n_calls} ordering call(s) with an explicit successor function", "", nontrivial=False))
     return out
+
+
+# ------------------------------------------------------------------------------------------ R14t
+def _ann_parts(a: ast.AST | None) -> tuple[str, list[ast.AST]] | None:
+    """`dict[K, V]` -> ('dict', [K, V]); `list[T]` -> ('list', [T]) (typing aliases included)"""
+    if isinstance(a, ast.Constant) and isinstance(a.value, str):
+        try:
+            a = ast.parse(a.value, mode="eval").body
+        except SyntaxError:
+            return None
+    if isinstance(a, ast.Subscript):
+        head = (dotted(a.value) or "").split(".")[-1]
+        args = list(a.slice.elts) if isinstance(a.slice, ast.Tuple) else [a.slice]
+        kind = {"dict": "dict", "Dict": "dict", "Mapping": "dict", "MutableMapping": "dict", "defaultdict": "dict", "OrderedDict": "dict",
+                "list": "list", "List": "list", "Sequence": "list", "Iterable": "list", "Iterator": "list", "tuple": "list", "set": "list", "Set": "list", "Collection": "list"}.get(head)
+        if kind == "dict" and len(args) == 2:
+            return "dict", args
+        if kind == "list" and args:
+            return "list", [args[0]]
+    return None
+
+
+def membership_in_mapping(ctx: Ctx, modules: tuple[str, ...] = ("cirkit",)) -> list[Ob]:
+    """R14t -- ``x in mapping`` tests the keys.
+
+    Where the annotations of a function determine both sides -- the mapping is a parameter or local
+    annotated ``dict[K, V]`` and ``x`` is an element of a sequence whose element type follows from
+    annotations (``for x in seq`` / a comprehension over it, ``seq = mapping2[k]`` with
+    ``mapping2: dict[K2, list[T]]``) -- a membership test whose left side has the mapping's *value*
+    type and not its key type is always False: the bookkeeping it was meant to consult ("has a match
+    already been selected?") is silently skipped."""
+    out: list[Ob] = []
+    n_dec = 0
+    for f in ctx.repo.iter_functions():
+        if not f.module.name.startswith(modules):
+            continue
+        ann: dict[str, ast.AST] = {}
+        for p in f.params:
+            if p.annotation is not None:
+                ann[p.name] = p.annotation
+        for n in walk_no_nested(f.node):
+            if isinstance(n, ast.AnnAssign) and isinstance(n.target, ast.Name):
+                ann[n.target.id] = n.annotation
+        if not any(_ann_parts(a) and _ann_parts(a)[0] == "dict" for a in ann.values()):  # type: ignore[index]
+            continue
+        ld = LocalDefs(f.node)
+
+        def type_of(e: ast.AST, depth: int = 3) -> ast.AST | None:
+            if isinstance(e, ast.Name):
+                if e.id in ann:
+                    return ann[e.id]
+                if depth == 0:
+                    return None
+                ts = []
+                for d in ld.defs.get(e.id, []):
+                    if isinstance(d, ast.Subscript) and isinstance(d.slice, ast.Name) and d.slice.id == "*":
+                        t = type_of(d.value, depth - 1)  # element of an iterable
+                        pp = _ann_parts(t)
+                        ts.append(pp[1][0] if pp and pp[0] == "list" else None)
+                    elif isinstance(d, ast.expr):
+                        ts.append(type_of(d, depth - 1))
+                    else:
+                        ts.append(None)
+                if ts and all(t is not None for t in ts) and len({unparse(t) for t in ts}) == 1:  # type: ignore[arg-type]
+                    return ts[0]
+                return None
+            if isinstance(e, ast.Subscript) and not isinstance(e.slice, ast.Slice):
+                pp = _ann_parts(type_of(e.value, depth))
+                if pp and pp[0] == "dict":
+                    return pp[1][1]
+                if pp and pp[0] == "list":
+                    return pp[1][0]
+            return None
+
+        for c in ast.walk(f.node):
+            if not (isinstance(c, ast.Compare) and len(c.ops) == 1 and isinstance(c.ops[0], (ast.In, ast.NotIn))):
+                continue
+            rhs = c.comparators[0]
+            if not isinstance(rhs, ast.Name):
+                continue
+            pp = _ann_parts(ann.get(rhs.id))
+            if not pp or pp[0] != "dict":
+                continue
+            # the left side: a plain name, possibly a comprehension variable of an enclosing generator
+            lhs_t: ast.AST | None = None
+            if isinstance(c.left, ast.Name):
+                lhs_t = type_of(c.left)
+                if lhs_t is None:
+                    for g in ast.walk(f.node):
+                        if isinstance(g, ast.comprehension) and isinstance(g.target, ast.Name) and g.target.id == c.left.id:
+                            tp = _ann_parts(type_of(g.iter))
+                            if tp and tp[0] == "list":
+                                lhs_t = tp[1][0]
+            if lhs_t is None:
+                continue
+            n_dec += 1
+            k_t, v_t = unparse(pp[1][0]), unparse(pp[1][1])
+            l_t = unparse(lhs_t)
+            loc = f"{f.module.relpath}:{c.lineno}"
+            inst = f"in-mapping:{unparse(c)[:40]}"
+            if l_t == v_t and l_t != k_t:
+                out.append(viol("R14t", f.qualname, inst, f"`{unparse(c)[:60]}`: the left side is a {l_t} -- the *value* type of `{rhs.id}: dict[{k_t}, {v_t}]` -- and `in` tests the keys ({k_t}): the test is always False, so what it guards (consulting the selections made so far) never happens", loc))
+            elif l_t == k_t:
+                out.append(ok("R14t", f.qualname, inst, f"a {l_t} among the keys ({k_t})", loc))
+            else:
+                n_dec -= 1  # the derived type is neither: the inference is too coarse here, no statement
+    out.append(ok("R14t", "cirkit", "decided-memberships", f"{n_dec} membership test(s) in annotated mappings with a derivable left type", "", nontrivial=False))
+    return out
